@@ -92,6 +92,43 @@ func (o *OracleC05) AfterCall(n *Node, st *Step) {
 			return
 		}
 	}
+	// (d) payloads received early are kept for the height (view) they belong to: a payload
+	// for a future height whose sender is a validator OF THAT HEIGHT, or for a future view of
+	// the current height, must sit in the future-message cache when the call returns
+	if st.Op == OpReceive && st.P != nil && !st.Probe && !st.PreDec {
+		p := st.P
+		kind := ""
+		switch p.T {
+		case dbft.PrepareRequestType, dbft.PrepareResponseType:
+			kind = "prepare"
+		case dbft.ChangeViewType:
+			kind = "chViews"
+		case dbft.PreCommitType:
+			kind = "preCommit"
+		case dbft.CommitType:
+			kind = "commit"
+		}
+		future := p.H > st.PreBI || (p.H == st.PreBI && p.V > st.PreV && p.T != dbft.ChangeViewType)
+		if kind != "" && future && st.PostBI == st.PreBI && int(p.Idx) < len(s.sc.ValsAt(p.H)) {
+			found := false
+			for _, e := range d.VerifState().Cache {
+				if e.Height == p.H && e.Kind == kind && e.Index == p.Idx && e.Hash == p.Hash().String() {
+					found = true
+				}
+			}
+			if p.H > st.PreBI {
+				s.note("early_payload_for_future_height")
+				if len(s.sc.ValsAt(p.H)) > len(s.sc.ValsAt(st.PreBI)) && int(p.Idx) >= len(s.sc.ValsAt(st.PreBI)) {
+					s.note("early_payload_from_new_validator_of_a_grown_set")
+					s.st.Exercised = true
+				}
+			}
+			if !found {
+				o.viol(n, "early_payload_not_kept", "at height %d view %d (%d validators) the node was given %s, whose sender is validator %d of the %d validators of height %d, and did not keep it for that height", st.PreBI, st.PreV, len(s.sc.ValsAt(st.PreBI)), p, p.Idx, len(s.sc.ValsAt(p.H)), p.H)
+				return
+			}
+		}
+	}
 	if st.Op != OpStart && st.Op != OpReset {
 		return
 	}
